@@ -104,7 +104,11 @@ def generate(tier, seed):
             elif r < 0.55:
                 steps.append("SA:" + adapter_F(lines_for(cur)))
             elif r < 0.7:
-                steps.append("SR:%d" % rnd.choice([10, 10, 3]))
+                if rnd.random() < 0.5:
+                    steps.append("SR:%d" % rnd.choice([10, 10, 3]))
+                else:
+                    # the replacement manager already holds links over this model's names (auto-build stays on in these histories)
+                    steps.append("SRP:%d:%s" % (rnd.choice([10, 10, 3]), enc_rules([[SUBS3[0], SUBS3[-1]], [SUBS3[1], SUBS3[0], "d1"], [SUBS3[-1], SUBS3[1], "d2"], [SUBS3[1], "admin"]])))
             elif r < 0.8:
                 steps.append("SE")
             else:
